@@ -500,12 +500,12 @@ func (vr *variableResolver) resolve(ctx *ExecutionContext) (*Value, error) {
 						}
 					}
 
-					if pv.IsNil() {
-						// Workaround to present an interface nil as reflect.Value
-						var empty any = nil
-						parameters = append(parameters, reflect.ValueOf(&empty).Elem())
+					if arg := pv.Interface(); arg == nil {
+						// nil is presented as the zero value of the parameter's type (an interface type, see
+						// argumentFits), so that it is assignable to it whichever interface that is
+						parameters = append(parameters, reflect.Zero(fnArg))
 					} else {
-						parameters = append(parameters, reflect.ValueOf(pv.Interface()))
+						parameters = append(parameters, reflect.ValueOf(arg))
 					}
 				} else {
 					// Function's argument is a *pongo2.Value
